@@ -41,6 +41,15 @@ def handle (st : DState) (line : String) : DState × String :=
       let i : Inst := ⟨a, b, c, false⟩
       (st.set id i, renderObs i)
     | _, _, _ => (st, "bad-class")
+  | "uq" :: id :: hex :: args =>
+    -- update WITHOUT rendering the observation (the implementation was not read after this update either)
+    match st.get? id, floatOfHex? hex with
+    | some i, some v =>
+      let tape := parseTape args
+      let i := { i with ex := i.ex.update v tape, lo := i.lo.update v tape, hi := i.hi.update v tape }
+      let i := { i with tie := i.tie || !agree i }
+      (st.set id i, ".")
+    | _, _ => (st, "bad-op")
   | "u" :: id :: hex :: args =>
     match st.get? id, floatOfHex? hex with
     | some i, some v =>
